@@ -411,6 +411,35 @@ def run_probe_cases(chk, d, cases):
             break
 
 
+def stored_cert_cases(d, r, n):
+    """Valid configurations whose certificate and key are already on disk (due, not due, expired), with and without jitter."""
+    import time
+    out = []
+    now = int(time.time())
+    k = 0
+    for na in (-86400, 3600, 5 * 86400, 29 * 86400, 31 * 86400, 400 * 86400):
+        for rer in (None, '0s', '1h', '2d', '40d', '3650d'):
+            for rd in (None, '1d', '30d'):
+                if len(out) >= n:
+                    return out
+                k += 1
+                sub = '%s/stored%d' % (d, k)
+                os.makedirs(sub + '/certs')
+                b = base_configs(sub)[1]
+                b['certificate'][0]['identifiers'] = [{'dns': 'stored.example.org', 'challenge': 'dns-01'}]
+                b['certificate'][0]['key_type'] = 'ecdsa_p256'
+                b['certificate'][0]['name'] = 'st'
+                if rer is not None:
+                    b['certificate'][0]['random_early_renew'] = rer
+                if rd is not None:
+                    b['global']['renew_delay'] = rd
+                out.append({'label': 'stored-cert:%s:%s' % ('expired' if na < 0 else ('due' if na < 30 * 86400 else 'fresh'), 'jitter' if rer not in (None, '0s') else 'nojitter'),
+                            'detail': 'certificate on disk with notAfter now%+ds, random_early_renew %s, renew_delay %s' % (na, rer, rd), 'cfg': b,
+                            'mkcert': {'out_cert': sub + '/certs/st_ecdsa-p256.crt.pem', 'out_key': sub + '/certs/st_ecdsa-p256.pk.pem', 'key_type': 'ecdsa-p256',
+                                       'not_after': now + na, 'not_before': now - 90 * 86400, 'sans': [['dns', 'stored.example.org']]}})
+    return out
+
+
 def run_daemon_cases(chk, d, cases, r):
     """The shipped binary itself on a sample: it must exit with a message or stay alive and send its first request."""
     ca = C.MockCA(d + '/ca', {'default': {}})
@@ -489,7 +518,9 @@ def run(tier):
         sample = [c for c in sample if not (c['label'].startswith('ratelimit') and 'small' not in c['label'] and 'zero' not in c['label'] and 'number=0' not in c['label'])]
         extra = [c for c in cases if c['label'].startswith('mutate:')]
         r.shuffle(extra)
-        run_daemon_cases(chk, d, sample[:70] + extra[:(20 if tier == 'quick' else 200)], r)
+        stored = stored_cert_cases(d, r, 36 if tier == 'quick' else 108)
+        C.vtool('mkcert', [c['mkcert'] for c in stored])
+        run_daemon_cases(chk, d, sample[:70] + extra[:(20 if tier == 'quick' else 200)] + stored, r)
         chk.sample({'hazard_labels': sorted({c['label'] for c in cases if not c['label'].startswith('mutate:')})[:12]})
         chk.sample({'mutation': [c['detail'] for c in cases if c['label'].startswith('mutate:')][:5]})
     finally:
